@@ -221,6 +221,22 @@ Theorem C01_cleared_gone : forall w ti t, WFw w -> get_tree w ti = Some t ->
 Proof. exact cleared_gone. Qed.
 Print Assumptions C01_cleared_gone.
 
+Theorem C01_deleted_gone : forall w ti k t n s,
+  WFw w -> get_tree w ti = Some t -> getitem t k = Some [n] -> get_node n (forest_of t) = Some s ->
+  exists t', get_tree (snd (op_del w ti k)) ti = Some t' /\ fst (op_del w ti k) = Ok [] /\
+    forall m, In m (ids_t s) -> ~ In m (ids (forest_of t')) /\ ~ In m (reg t').
+Proof. exact deleted_gone. Qed.
+Print Assumptions C01_deleted_gone.
+
+(* in-place filter: [FBranch v] = the filter removes the branch of node v *)
+Theorem C01_filtered_gone : forall w ti n vd t ch must acts stopped failed,
+  WFw w -> get_tree w ti = Some t -> children_of n (forest_of t) = Some ch ->
+  fvisit vd (T 0 dummy_info ch) false = (must, acts, stopped, failed) ->
+  exists t', get_tree (snd (op_filter w ti n vd)) ti = Some t' /\
+    forall v, In (FBranch v) acts -> ~ In v (ids (forest_of t')) /\ ~ In v (reg t').
+Proof. exact filtered_gone. Qed.
+Print Assumptions C01_filtered_gone.
+
 (* a node of one tree is not a node of another tree ("owner of every reachable node is the tree") *)
 Theorem C01_trees_disjoint : forall w i j ti tj n, WFw w -> i <> j -> get_tree w i = Some ti -> get_tree w j = Some tj ->
   In n (ids (forest_of ti)) -> ~ In n (ids (forest_of tj)).
